@@ -173,12 +173,21 @@ Fixpoint last_creg (a : Z) (ops : list lop) (acc : option bool) : option bool :=
   | _ :: r => last_creg a r acc
   end.
 
+(* ---- a QUIESCENT attendance pass (attend_subscriptions while no other operation is in flight) ----
+   It serves exactly the stored subscriptions - every subscription of this check matches every stored object - provided
+   the store holds an object at all, and changes nothing of the specified state.  What a pass serves is therefore a
+   function of the state: state that an implementation keeps beside it (the last-checked map) must never decide it. *)
+Definition served (st : ldm) : list Z :=
+  match d_items (l_db st) with [] => [] | _ :: _ => map fst (l_subs st) end.
+
 (* ---- interface for the correspondence check (linearizability against this sequential specification) ----
    dispatch 1 [ops as triples code a b] = results flattened, then 99, next id, n items, (id value)*, n prov, prov*,
    n cons, cons*, n subs, (token owner)*.
    codes: 1 ins v | 2 get i | 3 upd i v | 4 remid i | 5 remval v | 6 exists i | 7 all | 8 preg a | 9 pdereg a | 10 psnap
           | 11 creg a | 12 cdereg a | 13 csnap | 14 sadd s a | 15 sdel s a | 16 ssnap | 17 add v provider | 18 query consumer | 19 gcsnap pass id | 20 gcrem pass.
-   result kinds: 1 id | 2 value (payload -1 = none) | 3 bool | 4 n (id v)*n | 5 n x*n *)
+   result kinds: 1 id | 2 value (payload -1 = none) | 3 bool | 4 n (id v)*n | 5 n x*n
+   dispatch 2 [ops] = the output of dispatch 1, then 98, n, the n subscription tokens a quiescent attendance pass serves
+   in the final state. *)
 Fixpoint dec_ops (l : list Z) (fuel : nat) : list lop :=
   match fuel with
   | O => []
@@ -210,4 +219,10 @@ Definition dispatch (cmd : Z) (args : list Z) : list Z :=
     flat_map enc_res rs ++ [99; d_next (l_db s); Z.of_nat (length (d_items (l_db s)))] ++ enc_items (d_items (l_db s))
       ++ [Z.of_nat (length (l_prov s))] ++ l_prov s ++ [Z.of_nat (length (l_cons s))] ++ l_cons s
       ++ [Z.of_nat (length (l_subs s))] ++ enc_items (l_subs s)
+  else if cmd =? 2 then
+    let '(s, rs) := ldm_run ldm_init (dec_ops args (length args)) in
+    flat_map enc_res rs ++ [99; d_next (l_db s); Z.of_nat (length (d_items (l_db s)))] ++ enc_items (d_items (l_db s))
+      ++ [Z.of_nat (length (l_prov s))] ++ l_prov s ++ [Z.of_nat (length (l_cons s))] ++ l_cons s
+      ++ [Z.of_nat (length (l_subs s))] ++ enc_items (l_subs s)
+      ++ [98; Z.of_nat (length (served s))] ++ served s
   else [].
